@@ -230,6 +230,13 @@ func GenC20(t *rapid.T) *C20Case {
 func genC20(t *rapid.T) *C20Case {
 	cfg := TreeCfg{MaxDepth: 4, MaxWidth: 4, MaxStr: 6, KeyGen: func(t *rapid.T) string {
 		return GenString(t, 4)
+	}, LeafExtra: func(t *rapid.T) (V, bool) {
+		// strings that a pre-processing pass might expand or strip: references to environment variables
+		// (the harness sets VERIF_NL to a three-line value), comment openers
+		if oneIn(t, 12, "expandable") {
+			return VStr([]string{"${VERIF_NL}", "$VERIF_NL", "a // b", "/* x", "${HOME}", "%VERIF_NL%"}[drawIdx(t, 6, "xs")]), true
+		}
+		return V{}, false
 	}}
 	var root V
 	var sites []c20site
@@ -303,8 +310,10 @@ func genC20(t *rapid.T) *C20Case {
 	if oneIn(t, 3, "prefix") {
 		parts := []string{"garbage", "\n", "\n\n", " ", "x=1;", "\r\n", "// comment\n", "\t", "é\n"}
 		// brackets that do not open the root: those of the other container kind, and closing ones
+		// things a tolerant pre-pass might strip or expand, newlines included
+		parts = append(parts, "/* licence\n text\n*/", "// note\n", "<!--\n-->\n", "#!shebang\n", "$VERIF_NL", "/*\n\n*/\n")
 		if root.K == KList {
-			parts = append(parts, "{", "${VAR}\n", "}", "]", "{\"k\":1}\n")
+			parts = append(parts, "{", "${VAR}\n", "${VERIF_NL}", "}", "]", "{\"k\":1}\n")
 		} else {
 			parts = append(parts, "[", "[INFO] x\n", "]", "}", "[1,2]\n")
 		}
@@ -433,6 +442,6 @@ func checkC20Doc(c *C20Case, st *Stats, fileTag ...string) error {
 
 func init() {
 	Register("C20",
-		"a generated tree is rendered with drawn whitespace/newlines at every token boundary (LF, CRLF, blank lines, occasionally a raw newline inside a string), optional text with newlines before the root (any bracket but the one that opens the root, e.g. an '[INFO]' log prefix before an object) (occasionally 255-1000 blank lines, thorough up to 70000), bare CR and CR LF layouts, and exactly one injected syntax error of a kind whose message cites a line (invalid literal in a list / as an object value, detected at its terminating delimiter; bad character where a key must start; bad character after a key; bad character after a nested container in an object), at a drawn nesting depth; the generator records the byte offset of the detecting character. Oracle: if the error text ends in 'on line N' then N == 1 + number of newline bytes before that offset; via ParseList, ParseObject and ParseFile. Non-trivial = at least one newline before the error and the error inside a nested container, or newlines in text before the root bracket. Distinct = distinct FNV-64a hash of the case JSON.",
+		"a generated tree is rendered with drawn whitespace/newlines at every token boundary (LF, CRLF, blank lines, occasionally a raw newline inside a string), optional text with newlines before the root (multi-line block comments, line comments, references to a multi-line environment variable, any bracket but the one that opens the root, e.g. an '[INFO]' log prefix before an object) (occasionally 255-1000 blank lines, thorough up to 70000), bare CR and CR LF layouts, and exactly one injected syntax error of a kind whose message cites a line (invalid literal in a list / as an object value, detected at its terminating delimiter; bad character where a key must start; bad character after a key; bad character after a nested container in an object), at a drawn nesting depth; the generator records the byte offset of the detecting character. Oracle: if the error text ends in 'on line N' then N == 1 + number of newline bytes before that offset; via ParseList, ParseObject and ParseFile. Non-trivial = at least one newline before the error and the error inside a nested container, or newlines in text before the root bracket. Distinct = distinct FNV-64a hash of the case JSON.",
 		GenC20, CheckC20)
 }
